@@ -27,7 +27,7 @@ func recPaths(ti *mon.TraceIndex, rec string) []string {
 func c08(args []string) {
 	c := chk.New("C08", "exploration", args)
 	c.Build(false)
-	c.Rule("chains and trees of 1-3 processing stages with 3-40 items; recorder components in front of every in-port (single sender, so their log is the arrival order) and behind every out-port; task durations assigned so that completion order is the reverse or a random permutation of arrival order; slots in {2,4,16}, SCIPIPE_BUFSIZE in {1,3,128}, slow downstream recorders (buffers fill up), some middle tasks skipped because their outputs pre-exist, fan-in of two upstreams through a recording merge point; oracle: sequence behind each out-port == image (through the reference's task -> out-path map) of the sequence recorded in front of the in-port; projection of a merged sequence onto each upstream == that upstream's own output sequence. distinct_nontrivial = runs in which the completion order of some process really differed from its arrival order (measured from the commands' end stamps), distinct by (shape, config, permutation)")
+	c.Rule("chains and trees of 1-3 processing stages with 3-40 items; recorder components in front of every in-port (single sender, so their log is the arrival order) and behind every out-port; task durations assigned so that completion order is the reverse or a random permutation of arrival order; slots in {2,4,16}, SCIPIPE_BUFSIZE in {1,3,128}, slow downstream recorders (buffers fill up), some middle tasks skipped because their outputs pre-exist, fan-in of two upstreams through a recording merge point; oracle: sequence behind each out-port == image (through the reference's task -> out-path map) of the sequence recorded in front of the in-port; projection of a merged sequence onto each upstream == that upstream's own output sequence; every item passing a recorder behind a non-streaming out-port of a command / Go-function process must be a file at that moment (the recorder stats it on reception). distinct_nontrivial = runs in which the completion order of some process really differed from its arrival order (measured from the commands' end stamps), distinct by (shape, config, permutation)")
 	c.Assume("recorders are harness components written against the public BaseProcess/InPort/OutPort API")
 	rng := c.Rand("c08")
 	type job struct {
@@ -395,6 +395,22 @@ func c08(args []string) {
 				if strings.Join(proj, "\x00") != strings.Join(up, "\x00") {
 					ps = append(ps, mon.Problem{Sig: "fan-in-permuted-upstream", Msg: fmt.Sprintf("items of upstream up%d left it as %v but appear in the merged stream as %v", k, up, proj)})
 				}
+			}
+		}
+		// an item that passes a recorder behind a non-streaming out-port of a command / Go-function process is a
+		// file at that moment (the recorder stats it on reception)
+		for _, cn := range j.s.Conns {
+			tp, _ := spec.SplitPort(cn.To)
+			fp, fport := spec.SplitPort(cn.From)
+			rp, up := j.s.Proc(tp), j.s.Proc(fp)
+			if rp == nil || up == nil || rp.Kind != spec.KRecorder || (up.Kind != spec.KCmd && up.Kind != spec.KGoFunc) || strings.Contains(up.Cmd, "{os:"+fport) {
+				continue
+			}
+			for _, e := range ti.Recs[tp] {
+				if !e.Exists {
+					ps = append(ps, mon.Problem{Sig: "item-forwarded-before-it-exists", Msg: fmt.Sprintf("%s left %s but no file existed at that path at that moment", e.Path, cn.From)})
+				}
+				c.Count("items_stat_on_reception", 1)
 			}
 		}
 		if len(ps) > 0 {
